@@ -804,24 +804,58 @@ def deleg_slice(ctx, facts, fid, finisher=None, rule="DELEG"):
         return
     c = calls[0]
     loops = t.enclosing_loops(c)
-    if len(loops) != 1 or loops[0]["src"] != "ForLoop":
-        ctx.violation(rule, fid, "loop nesting", hirq.loc(c), "self.sketch must be called in exactly one for loop over the slice")
-        return
-    conds = nf.all_conditions(t, c, stop=loops[0])
-    if conds:
-        ctx.violation(rule, fid, "conditional delegation", hirq.loc(c), "self.sketch is only called when %s: some elements are skipped" % (conds[:2],))
-        return
-    for (kind, node) in loop_exits(fn, loops[0]):
-        if kind != "iterator-exhausted":
-            ctx.violation(rule, fid, "early exit", hirq.loc(node), "the per-element loop can be left early by %s" % kind)
-            return
     from ..rulelib import for_loops
-    fl = [f for f in for_loops(fn) if f["loop"] is loops[0]]
     SLICE = hirq.show_pat(fn["params"][1]["pat"])
-    if not fl or nf.nf(fl[0]["iter"]) != SLICE or nf.nf(c["args"][0]) != hirq.show_pat(fl[0]["pat"]):
-        ctx.violation(rule, fid, "element argument", hirq.loc(c), "the loop must range over the whole input slice and pass each element unchanged; found iter `%s`, arg `%s`"
-                      % (nf.nf(fl[0]["iter"]) if fl else "?", nf.nf(c["args"][0])))
-        return
+    # `slice.iter().for_each(|e| self.sketch(e)..)` is the same per-element loop: it cannot be left early, and the closure body
+    # plays the part of the loop body
+    fe = None
+    if not loops:
+        for a in t.ancestors(c):
+            if a["k"] == "Closure":
+                par = t.parent.get(id(a))
+                if par is not None and par["k"] == "MethodCall" and par["name"] == "for_each" and len(par["args"]) == 1 and par["args"][0] is a and len(a["params"]) == 1:
+                    fe = (par, a)
+                break
+    if fe is not None:
+        fe_call, clo = fe
+        it = nf.strip(fe_call["recv"])
+        while it["k"] == "MethodCall" and it["name"] in ("iter", "into_iter") and not it["args"]:
+            it = nf.strip(it["recv"])
+        conds = nf.all_conditions(t, c, stop=clo)
+        if conds:
+            ctx.violation(rule, fid, "conditional delegation", hirq.loc(c), "self.sketch is only called when %s: some elements are skipped" % (conds[:2],))
+            return
+        if [x for x in hirq.walk(clo["body"]) if x["k"] == "Ret"] or t.enclosing_loops(fe_call):
+            ctx.violation(rule, fid, "early exit", hirq.loc(fe_call), "the per-element closure can be left before self.sketch, or for_each is itself inside a loop")
+            return
+        if nf.nf(it) != SLICE or nf.nf(c["args"][0]) != hirq.show_pat(clo["params"][0]):
+            ctx.violation(rule, fid, "element argument", hirq.loc(c), "for_each must range over the whole input slice and pass each element unchanged; found iter `%s`, arg `%s`" % (nf.nf(it), nf.nf(c["args"][0])))
+            return
+        # the for_each statement itself may only be guarded by the non-emptiness of the slice (the other branch reports it)
+        L = "%s.len()" % SLICE
+        nonempty = [("cmp", "0", "<", L), ("cmp", "0", "!=", L), ("cmp", "1", "<=", L), ("truth", "%s.is_empty()" % SLICE, False)]
+        outer = [c_ for c_ in nf.all_conditions(t, fe_call, res=resolver_of(fn)) if tuple(c_) not in nonempty]
+        if outer:
+            ctx.violation(rule, fid, "conditional delegation", hirq.loc(fe_call), "the per-element pass only runs when %s" % (outer[:2],))
+            return
+        fl = [{"match": fe_call}]
+    else:
+        if len(loops) != 1 or loops[0]["src"] != "ForLoop":
+            ctx.violation(rule, fid, "loop nesting", hirq.loc(c), "self.sketch must be called in exactly one for loop over the slice (or slice.iter().for_each)")
+            return
+        conds = nf.all_conditions(t, c, stop=loops[0])
+        if conds:
+            ctx.violation(rule, fid, "conditional delegation", hirq.loc(c), "self.sketch is only called when %s: some elements are skipped" % (conds[:2],))
+            return
+        for (kind, node) in loop_exits(fn, loops[0]):
+            if kind != "iterator-exhausted":
+                ctx.violation(rule, fid, "early exit", hirq.loc(node), "the per-element loop can be left early by %s" % kind)
+                return
+        fl = [f for f in for_loops(fn) if f["loop"] is loops[0]]
+        if not fl or nf.nf(fl[0]["iter"]) != SLICE or nf.nf(c["args"][0]) != hirq.show_pat(fl[0]["pat"]):
+            ctx.violation(rule, fid, "element argument", hirq.loc(c), "the loop must range over the whole input slice and pass each element unchanged; found iter `%s`, arg `%s`"
+                          % (nf.nf(fl[0]["iter"]) if fl else "?", nf.nf(c["args"][0])))
+            return
     allowed_mut = {id(c)}
     if finisher:
         fcalls = [n for n in user_nodes(fn) if n["k"] == "MethodCall" and n["name"] == finisher and nf.nf(n["recv"]) == "self"]
